@@ -165,6 +165,25 @@ def r15_3_identity_retention(repo: Repo, rep: Report):
     t = src(dg)
     ok = "for key, val in self._mapping.items()" in t and "val.get_id()" in t and "m.update(int.to_bytes(key, length=32))" in t
     rep.check("R15.3", ok, ms, dg, "StorageData.digest covers every key and every value id", "storage digest incomplete")
+    # ... as one sequence: a single hash state is fed key bytes then value bytes, entry after entry.  Combining
+    # separately hashed keys and values (xor/sum of per-part digests) loses which value sits in which slot.
+    hashers = [c for c in body_walk(dg) if isinstance(c, ast.Call) and dotted(c.func).startswith("xxhash.")]
+    in_loop = [h for h in hashers if any(isinstance(a, (ast.For, ast.While)) for a in ms.ancestors(h))]
+    comb = [n for n in body_walk(dg) if (isinstance(n, ast.BinOp) and isinstance(n.op, (ast.BitXor, ast.Add, ast.BitOr))) or (isinstance(n, ast.AugAssign) and isinstance(n.op, (ast.BitXor, ast.Add, ast.BitOr)))]
+    hv = [src(v) for v in find_assign(dg, "m")]
+    rets = [src(r.value) for r in body_walk(dg) if isinstance(r, ast.Return) and r.value is not None]
+    upd = [c for c in method_calls(dg, "update")]
+    ok = len(hashers) == 1 and not in_loop and not comb and hv == ["xxhash.xxh3_128()"] and rets == ["m.digest()"] and upd and all(src(c.func.value) == "m" for c in upd)
+    rep.check("R15.3", ok, ms, dg, f"StorageData.digest: one hash state ({hv}), {len(upd)} update site(s) on it, returns {rets}; per-entry hashers: {len(in_loop)}, combining operators: {len(comb)}", "keys and values must go through one hash state in sequence: a digest combined from separately hashed parts makes storages that permute values among slots collide, and such a state is dropped as already visited")
+    # the dependency relation behind slicing is transitively closed when a condition is appended
+    _, pa = repo.fn("sevm.Path.append")
+    rel = [s for s in body_walk(pa) if isinstance(s, ast.Assign) and src(s.targets[0]) == "self.related[idx]"]
+    ok = len(rel) == 1 and src(rel[0].value) == "self._get_related(var_set)" and [src(v) for v in find_assign(pa, "var_set")] == ["self.get_var_set(cond)"]
+    rep.check("R15.3", ok, ms, rel[0] if rel else pa, f"Path.append: {src(rel[0]) if rel else 'self.related[idx] = ?'}", "related[idx] must be the transitive closure computed by _get_related(var_set): with direct neighbours only, slicing misses constraints linked to a state variable through a chain, and distinct states get the same id")
+    _, gr = repo.fn("sevm.Path._get_related")
+    t = src(gr)
+    ok = "result.update(self.related[cond])" in t and "self.var_to_conds[var]" in t
+    rep.check("R15.3", ok, ms, gr, "_get_related: union over var_to_conds[var] and the (closed) related sets of those conditions", "closure helper changed")
     # slicing collects variables from balance, code and storage
     _, psl = repo.fn("sevm.Exec.path_slice")
     t = src(psl)
@@ -264,6 +283,23 @@ def r15_6_filters_structure(repo: Repo, rep: Report):
     rep.check("R15.6", ok, m, c[0] if c else ic, "InvariantTestingContext(target_*/excluded_* = matching getter)", "a filter set is filled from the wrong getter")
 
 
+def r15_9_selector_decoding(repo: Repo, rep: Report):
+    rep.rule("R15.9", "targetSelector/excludeSelector entries accumulate per contract (several FuzzSelector entries may name the same contract)")
+    m, fn = repo.fn("__main__.abi_decode_FuzzSelector_array")
+    stores = [n for n in body_walk(fn) if isinstance(n, ast.Subscript) and isinstance(n.ctx, ast.Store) and src(n.value) == "result"]
+    for n in stores:
+        st = m.parents.get(n)
+        v = getattr(st, "value", None)
+        ok = isinstance(st, ast.AugAssign) or (v is not None and ("result[" in src(v) or "result.get(" in src(v)))
+        rep.check("R15.9", ok, m, st, src(st)[:100], "an entry for a contract that already has selectors replaces them: functions selected by earlier entries are never called")
+    acc = [c for c in body_walk(fn) if isinstance(c, ast.Call) and last_attr(c) in ("extend", "append") and src(c.func.value).startswith("result[")]
+    res = [src(v) for v in find_assign(fn, "result")]
+    ok = (bool(acc) and res == ["defaultdict(list)"]) or any(isinstance(m.parents.get(n), ast.AugAssign) for n in stores) or bool(acc and any("setdefault" in r or "defaultdict" in r for r in res))
+    rep.check("R15.9", ok, m, fn, f"result = {res}; accumulating writes: {[src(c)[:60] for c in acc]}", "selectors of one contract must be accumulated over all entries")
+    rets = [src(r.value) for r in body_walk(fn) if isinstance(r, ast.Return) and r.value is not None]
+    rep.check("R15.9", rets == ["result"], m, fn, f"returns {rets}", "decoder must return the accumulated mapping")
+
+
 def r15_4_probe_results_reach_a_verdict(repo: Repo, rep: Report):
     rep.rule("R15.4", "counterexamples recorded by a CounterexampleHandler flow into a test result")
     m = repo.mod("__main__")
@@ -302,4 +338,4 @@ def r15_7_loop_logs(repo: Repo, rep: Report):
     r10_2_loop_logs_reported(repo, rep)
 
 
-RULES = [r15_1_depth_indexing, r15_2_loop_completeness, r15_3_identity_retention, r15_4_probe_results_reach_a_verdict, r15_5_symbolic_transaction, r15_6_filters_structure, r15_7_loop_logs, r15_8_partial_frontier]
+RULES = [r15_9_selector_decoding, r15_1_depth_indexing, r15_2_loop_completeness, r15_3_identity_retention, r15_4_probe_results_reach_a_verdict, r15_5_symbolic_transaction, r15_6_filters_structure, r15_7_loop_logs, r15_8_partial_frontier]
